@@ -1,11 +1,13 @@
 #!/bin/sh
-# tools/import_mutants.sh <Cxx>   (development aid) — copies a sub-agent's deliverables from /tmp/wt/<Cxx> into seeded/<Cxx>{A,B}
-P="$1"
+# tools/import_mutants.sh <dir under /tmp/wt> <Cxx> [<suffix for A> <suffix for B>]   (development aid)
+# copies a sub-agent's deliverables from /tmp/wt/<dir> into seeded/<Cxx><suffix>
+SRC="/tmp/wt/$1"; P="$2"; SA="${3:-A}"; SB="${4:-B}"
 for X in A B; do
-  [ -f /tmp/wt/$P/mutant$X.diff ] || continue
-  mkdir -p /verif/seeded/$P$X
-  cp /tmp/wt/$P/mutant$X.diff /verif/seeded/$P$X/patch.diff
-  cp /tmp/wt/$P/demo${X}_test.go.txt /verif/seeded/$P$X/demo_test.go.txt
-  [ -f /tmp/wt/$P/REPORT.md ] && cp /tmp/wt/$P/REPORT.md /verif/seeded/$P$X/AGENT_REPORT.md
+  [ -f $SRC/mutant$X.diff ] || continue
+  if [ $X = A ]; then T=$SA; else T=$SB; fi
+  mkdir -p /verif/seeded/$P$T
+  cp $SRC/mutant$X.diff /verif/seeded/$P$T/patch.diff
+  cp $SRC/demo${X}_test.go.txt /verif/seeded/$P$T/demo_test.go.txt
+  [ -f $SRC/REPORT.md ] && cp $SRC/REPORT.md /verif/seeded/$P$T/AGENT_REPORT.md
 done
-ls /verif/seeded/${P}A /verif/seeded/${P}B
+ls /verif/seeded/$P$SA /verif/seeded/$P$SB
